@@ -20,6 +20,9 @@ import z3
 
 F64 = z3.Float64()
 F32 = z3.Float32()
+import sys as _sys
+if hasattr(_sys, 'set_int_max_str_digits'):
+    _sys.set_int_max_str_digits(0)      # nonlinear models can carry rationals with thousands of digits
 RNE = z3.RNE()
 RTN = z3.RTN()
 RTZ = z3.RTZ()
